@@ -3,6 +3,7 @@
 -/
 import SqlizeModel.Proofs.SpecSchema
 import SqlizeModel.Proofs.SpecJustifiedDown
+import SqlizeModel.Proofs.SpecTableFkDown
 
 namespace Sqlize
 open Spec
@@ -71,8 +72,8 @@ theorem walkFk_empty_down (tb : String) (dc : List String) (fks : List ForeignKe
       rw [this] at h1; cases h1
   · rw [if_neg hcond]
 
-/-- **C02 for a whole schema, on the reference engine** (MySQL reader model, default field order; scripts without
-    foreign keys, without inline PRIMARY KEY and COMMENT options; tables on both sides keep the relative order of their
+/-- **C02 for a whole schema, on the reference engine** (MySQL reader model, default field order; scripts without inline PRIMARY KEY; no foreign key found on both sides differs (the recorded region
+    `foreign-key-redefined`); tables on both sides keep the relative order of their
     common columns and their primary key, and none of them is in the recorded region
     `index-redefined-old-columns-dropped` read in the down direction; no table is called like the bookkeeping table).
     `Diff` and `MigrationDown` return, and the printed down migration — DROP TABLE for the tables only the new side
@@ -85,11 +86,11 @@ theorem schema_spec_down (g : Globals) (hg : g.dialect = .mysql) (hio : g.ignore
     (hpo : old.all Stmt.plainOpts = true) (hpn : new.all Stmt.plainOpts = true)
     (heo : execAll rc [] old = some dbO) (hen : execAll rc [] new = some dbN)
     (hdef : ∀ tb ∈ dbO ++ dbN, tb.name ≠ Migration.defaultMigrationTable)
-    (hnofk : ∀ tb ∈ dbO ++ dbN, tb.fks = [])
     (hboth : ∀ tbO ∈ dbO, ∀ tbN ∈ dbN, tbO.name = tbN.name →
       Abs.OrderCompatible tbN.colNames tbO.colNames ∧ (∀ n ∈ tbN.colNames ++ tbO.colNames, n ≠ "") ∧ tbO.pk = tbN.pk ∧
       (∀ dc : List String, (∀ c ∈ dc, c ∉ tbO.colNames) →
-        ∀ s ∈ tbN.idxs, ∀ o ∈ tbO.idxs, o.name = s.name → o ≠ s → ∃ c ∈ s.cols, c ∉ dc)) :
+        ∀ s ∈ tbN.idxs, ∀ o ∈ tbO.idxs, o.name = s.name → o ≠ s → ∃ c ∈ s.cols, c ∉ dc) ∧
+      (∀ s ∈ tbN.fks, ∀ o ∈ tbO.fks, s.name = o.name → s = o)) :
     ∃ d out, loadAndDiff g old new = .ok d ∧ d.migrationDown g = .ok (d, out) ∧
       (∃ db', execAll false dbN out.flatten = some db' ∧ db'.equiv dbO = true) ∧
       ∀ s ∈ out.flatten, justified dbN dbO s = true := by
@@ -136,25 +137,15 @@ theorem schema_spec_down (g : Globals) (hg : g.dialect = .mysql) (hio : g.ignore
       | some tbN =>
         -- a table both sides have
         have hnN : tbN.name = td.name := find_name dbN _ _ hfN
-        obtain ⟨hcmp, hne, hpk, hred⟩ := hboth tbO (mem_of_find hfO) tbN (mem_of_find hfN) (hnO.trans hnN.symm)
-        obtain ⟨td', htd', hn', cs, dc, is, hcs, his, hrun⟩ := table_spec_down_any g hg hio rc old new dbO dbN ho hn hpo hpn heo hen d hd
-          td.name tbO tbN hfO hfN hcmp hne hpk hred
+        obtain ⟨hcmp, hne, hpk, hred, hnr⟩ := hboth tbO (mem_of_find hfO) tbN (mem_of_find hfN) (hnO.trans hnN.symm)
+        obtain ⟨td', htd', hn', cs, dc, is, hcs, his, hrun⟩ := table_spec_down_fk_any g hg hio rc old new dbO dbN ho hn hpo hpn heo hen d hd
+          td.name tbO tbN hfO hfN hcmp hne hpk hred hnr
         have := huniq td' htd' td htd hn'
         subst this
-        -- no foreign-key statement: neither side has a key
-        obtain ⟨td2, h21, h22, hact2, _, _, _, ⟨hfe, _⟩⟩ := elems_end_to_end g hg rc old new dbO dbN ho hn heo hen d hd td'.name tbO tbN hfO hfN
-        have := huniq td2 h21 td' htd h22
-        subst this
-        have hfs : td2.migrationForeignKeyDown dc = [] := by
-          unfold Table.migrationForeignKeyDown
-          rw [hact2]
-          apply walkFk_empty_down
-          rw [hfe, hnofk tbN (List.mem_append_right _ (mem_of_find hfN)), hnofk tbO (List.mem_append_left _ (mem_of_find hfO))]
-          rfl
-        have hjust : ∀ s ∈ cs ++ is ++ td2.migrationForeignKeyDown dc, justified dbN dbO s = true := by
+        have hjust : ∀ s ∈ cs ++ is ++ td'.migrationForeignKeyDown dc, justified dbN dbO s = true := by
           obtain ⟨td4, h41, h42, cs4, dc4, is4, hcs4, his4, hj4⟩ := table_stmts_justified_down g hg hio rc old new dbO dbN ho hn hpo hpn heo hen d hd
-            td2.name tbO tbN hfO hfN hne hpk
-          have := huniq td4 h41 td2 htd h42
+            td'.name tbO tbN hfO hfN hne hpk
+          have := huniq td4 h41 td' htd h42
           subst this
           rw [hcs] at hcs4
           have e1 := (Prod.mk.inj (Except.ok.inj hcs4)).1
@@ -163,19 +154,23 @@ theorem schema_spec_down (g : Globals) (hg : g.dialect = .mysql) (hio : g.ignore
           rw [his] at his4
           have e3 := Except.ok.inj his4
           subst e3
-          rw [hfs, List.append_nil]
-          exact hj4
-        refine ⟨cs ++ is ++ td2.migrationForeignKeyDown dc, ⟨cs, dc, is, hcs, his, rfl⟩, hjust, ?_⟩
+          obtain ⟨td5, h51, h52, hj5⟩ := fk_stmts_justified_down g hg rc old new dbO dbN ho hn heo hen d hd td4.name tbO tbN hfO hfN
+          have := huniq td5 h51 td4 htd h52
+          subst this
+          intro s hs
+          rcases List.mem_append.mp hs with h | h
+          · exact hj4 s h
+          · exact hj5 dc s h
+        refine ⟨cs ++ is ++ td'.migrationForeignKeyDown dc, ⟨cs, dc, is, hcs, his, rfl⟩, hjust, ?_⟩
         intro db0 hnd0 hf0
         obtain ⟨db1, tb1, he1, hf1, hc1, hi1, hp1, hn1, hk1, hfr1, hnm1⟩ := hrun db0 hnd0 hf0
-        refine ⟨db1, by rw [hfs, List.append_nil]; exact he1, ?_, hfr1, by rw [hnm1]; exact hnd0⟩
+        refine ⟨db1, he1, ?_, hfr1, by rw [hnm1]; exact hnd0⟩
         unfold GroupGoal
         rw [hfO]
         refine ⟨tb1, hf1, ?_⟩
         unfold TableSpec.equiv
-        rw [hn1, hnO, hc1, hp1, perm_permEq _ _ hi1, hk1 (hnofk tbN (List.mem_append_right _ (mem_of_find hfN))),
-          hnofk tbO (List.mem_append_left _ (mem_of_find hfO))]
-        simp [permEq]
+        rw [hn1, hnO, hc1, hp1, perm_permEq _ _ hi1, perm_permEq _ _ hk1]
+        simp
       | none =>
         -- a table only the old side has: the down migration creates it again
         have hnotN : td.name ∉ mn.tblNames := by rw [← hNn]; exact (find_none_iff dbN td.name).mp hfN
@@ -191,8 +186,8 @@ theorem schema_spec_down (g : Globals) (hg : g.dialect = .mysql) (hio : g.ignore
           cases h : dbN.has td.name with
           | false => rfl
           | true => exact absurd ((has_iff dbN td.name).mp h) ((find_none_iff dbN td.name).mp hfN)
-        obtain ⟨i, td0, hi0, hn0, hact0, cs, is, hcs, his, hfs, hjc, _, hrun⟩ :=
-          loaded_table_spec g hg rc old dbO ho hpo heo mo hmo' td.name tbO hfO (hnofk tbO (List.mem_append_left _ (mem_of_find hfO)))
+        obtain ⟨i, td0, hi0, hn0, hact0, cs, is, fs, hcs, his, hfs, hjc, _, hrun⟩ :=
+          loaded_table_spec g hg rc old dbO ho hpo heo mo hmo' td.name tbO hfO
         have htd0 : td0 = ot := by
           refine eq_of_name_nodup (fun x : Table => x.name) hro.inv.tbls.nodup (List.mem_of_getElem? hi0) hot ?_
           rw [hn0, hrem]
@@ -214,14 +209,14 @@ theorem schema_spec_down (g : Globals) (hg : g.dialect = .mysql) (hio : g.ignore
           rw [this]
           simp only
           rw [hback]; exact his []
-        · have hfd : td.migrationForeignKeyDown [] = [] := by
+        · have hfd : td.migrationForeignKeyDown [] = fs := by
             unfold Table.migrationForeignKeyDown
             have : td.action = .remove := by rw [hrem]
             rw [this]
             simp only
             rw [hback]; exact hfs []
-          rw [hfd, List.append_nil]; exact hjc dbN hnotN'
-        · have hfd : td.migrationForeignKeyDown [] = [] := by
+          rw [hfd]; exact hjc dbN hnotN'
+        · have hfd : td.migrationForeignKeyDown [] = fs := by
             unfold Table.migrationForeignKeyDown
             have : td.action = .remove := by rw [hrem]
             rw [this]
@@ -235,7 +230,7 @@ theorem schema_spec_down (g : Globals) (hg : g.dialect = .mysql) (hio : g.ignore
               have := (has_iff db0 td.name).mp h
               exact absurd this ((find_none_iff db0 td.name).mp hf0)
           obtain ⟨db1, tb1, he1, hf1, heq1, hfr1, hnm1⟩ := hrun db0 hnd0 hnot
-          refine ⟨db1, by rw [hfd, List.append_nil]; exact he1, ?_, hfr1, ?_⟩
+          refine ⟨db1, by rw [hfd]; exact he1, ?_, hfr1, ?_⟩
           · unfold GroupGoal
             rw [hfO]
             exact ⟨tb1, hf1, heq1⟩
@@ -267,7 +262,7 @@ theorem schema_spec_down (g : Globals) (hg : g.dialect = .mysql) (hio : g.ignore
             | false => rfl
             | true => exact absurd ((has_iff dbO td.name).mp h) ((find_none_iff dbO td.name).mp hfO)
           obtain ⟨td', htd', hn', ha', _⟩ := created_table_spec g hg rc old new dbO dbN ho hn hpo hpn heo hen d hd
-            td.name tbN hfN hnew (hnofk tbN (List.mem_append_right _ (mem_of_find hfN)))
+            td.name tbN hfN hnew
           rw [← huniq td' htd' td htd hn']; exact ha'
       refine ⟨[.dropTable td.name], ⟨[.dropTable td.name], [], [], ?_, ?_, ?_⟩, ?_, ?_⟩
       · unfold Table.migrationColumnDown Table.migrationColumnUp; rw [hadd]; rfl
